@@ -2,41 +2,16 @@
 import json
 import os
 import shutil
-import socket
 import threading
 import time
 from . import common as c
-
-RETRY_MARK = "dependency_monitor_test.go"  # cmd/keymasterd's own test init listens on a fixed port
-
-
-def wait_port_free(port=10638, limit=600):
-    t0 = time.time()
-    while time.time() - t0 < limit:
-        s = socket.socket()
-        s.settimeout(0.5)
-        try:
-            s.connect(("127.0.0.1", port))
-        except OSError:
-            return True
-        finally:
-            s.close()
-        time.sleep(0.5)
-    return False
-
 
 def strip(lines):
     return [l.split(" #")[0] for l in lines]
 
 
 def harness(ctx, pkg, ops, tag="h", timeout=900):
-    for attempt in range(8):
-        if pkg == "cmd/keymasterd":
-            wait_port_free()
-        impl, log, rc = c.run_harness(ctx, pkg, "C19", ops, tag="%s%d" % (tag, attempt), timeout=timeout)
-        if rc == 0 or RETRY_MARK not in log or len(impl) == len(ops):
-            break
-        ctx.notes.pop()
+    impl, log, rc = c.run_harness(ctx, pkg, "C19", ops, tag=tag, timeout=timeout)
     return impl, rc
 
 
@@ -66,8 +41,10 @@ def nocgo_setup(ctx):
     return d
 
 
-def run_client(ctx, ops, tag="k", timeout=900):
-    """TestVerifC19 of harness/keymaster (real cmd/keymaster code), see nocgo_setup."""
+def run_client(ctx, ops, tag="k", timeout=900, netns_pid=None):
+    """TestVerifC19 of harness/keymaster (real cmd/keymaster code), see nocgo_setup. Runs in a private
+    network namespace like every harness; with netns_pid inside the namespace of that process (the
+    server harness of the end-to-end run)."""
     d = nocgo_setup(ctx)
     rep = json.load(open(c.overlay_file(ctx)))["Replace"]
     hd = os.path.join(c.HARNESS, "keymaster")
@@ -86,6 +63,10 @@ def run_client(ctx, ops, tag="k", timeout=900):
                 "VERIF_SEED": str(ctx.seed)})
     cmd = ["go", "test", "-modfile=" + os.path.join(d, "go.mod"), "-tags", "verif", "-overlay", ov, "-vet=off", "-count=1",
            "-timeout", "%ds" % timeout, "-run", "^TestVerifC19$", "./" + pkg + "/"]
+    if netns_pid and c.netns_available():
+        cmd = ["nsenter", "-t", str(netns_pid), "-n"] + cmd
+    elif c.netns_available():
+        cmd = c.NETNS_PREFIX + cmd
     rc, log = c.sh(cmd, cwd=c.REPO, env=env, timeout=timeout + 120)
     lines = []
     if os.path.exists(out_path):
@@ -137,27 +118,48 @@ def mutations(rng, line, other_lines, n):
     return out[:n]
 
 
-def agent_ops(rng, nscen):
+def agent_ops(rng, nscen, client_types):
+    """client_types: the key types of the regenerated client table (`kind:bits`); every one of them gets
+    >= 3 consecutive upserts under one label with other entries present"""
     ops = []
     nid = [0]
 
     def fresh():
         nid[0] += 1
         return nid[0]
+    all_types = sorted(set(client_types) | {"ecdsa:521", "ed25519:256"})
     comments = [c.hexs(x) for x in ["keymaster-rsa-username", "keymaster-ed25519-username", "keymaster-p384-username", "other", "", "x y"]]
-    # the client's own sequence first: upsert twice under the same comment, a plain key with that comment present
-    ops += ["a reset", "a add %s %d plain" % (comments[0], fresh()), "a add %s %d cert" % (comments[1], fresh()),
-            "a upsert %s %d" % (comments[0], fresh()), "a upsert %s %d" % (comments[0], fresh()),
-            "a upsert %s %d" % (comments[1], fresh()), "a list"]
+    for kt in client_types:
+        label = c.hexs("keymaster-%s-username" % kt.replace(":", ""))
+        other = [t for t in all_types if t != kt]
+        ops += ["a reset",
+                "a add %s %d plain %s" % (label, fresh(), kt),                 # plain key with the label
+                "a add %s %d cert %s" % (c.hexs("other"), fresh(), kt),       # same type, other label
+                "a add %s %d cert %s" % (c.hexs("other"), fresh(), other[0]),
+                "a add %s %d plain %s" % (c.hexs("other2"), fresh(), other[-1])]
+        ops += ["a upsert %s %d %s" % (label, fresh(), kt) for _ in range(4)]
+        ops += ["a add %s %d cert %s" % (label, fresh(), other[0]),           # a foreign-type certificate under the label
+                "a upsert %s %d %s" % (label, fresh(), kt), "a upsert %s %d %s" % (label, fresh(), kt), "a list"]
     for _ in range(nscen):
         ops.append("a reset")
+        nrsa = 0
         for _ in range(rng.randrange(0, 8)):
-            ops.append("a add %s %d %s" % (rng.choice(comments), fresh(), rng.choice(["cert", "cert", "plain"])))
-        for _ in range(rng.randrange(1, 6)):
-            if rng.random() < 0.75:
-                ops.append("a upsert %s %d" % (rng.choice(comments), fresh()))
+            kt = rng.choice(all_types)
+            kind = rng.choice(["cert", "cert", "plain"])
+            if kind == "plain" and kt.startswith("rsa"):
+                nrsa += 1
+                if nrsa > 4:
+                    kt = "ed25519:256"
+            ops.append("a add %s %d %s %s" % (rng.choice(comments), fresh(), kind, kt))
+        label, kt = rng.choice(comments), rng.choice(client_types)
+        for _ in range(rng.randrange(1, 7)):
+            r = rng.random()
+            if r < 0.6:
+                ops.append("a upsert %s %d %s" % (label, fresh(), kt))
+            elif r < 0.8:
+                ops.append("a upsert %s %d %s" % (rng.choice(comments), fresh(), rng.choice(client_types)))
             else:
-                ops.append("a add %s %d %s" % (rng.choice(comments), fresh(), rng.choice(["cert", "plain"])))
+                ops.append("a add %s %d cert %s" % (rng.choice(comments), fresh(), rng.choice(all_types)))
     return ops
 
 
@@ -173,11 +175,11 @@ def run(ctx):
            "e2e_runs": 0, "wire_bytes_scanned": 0, "wire_requests": 0, "private_keys_scanned_for": 0}
     # ------------------------------------------------------------------ 1. the real client's keys
     kops = ["k keys %s" % p for p in PREFS] + ["k keys bogus"] + ["k genkey %s %d" % g for g in GENKEYS]
+    for p in PREFS:      # the real client's own installation path, three consecutive runs per preference
+        kops += ["k install %s noagent" % p, "k install %s agent" % p]
+    kops.append("k genkeypair")
     if not q:
         kops += ["k genkey rsa 4096", "k genkey rsa 3072"]
-        for p in PREFS:
-            kops += ["k install %s noagent" % p, "k install %s agent" % p]
-        kops.append("k genkeypair")
     kraw, rc = run_client(ctx, kops)
     if rc != 0 or len(kraw) != len(kops):
         ctx.broken.append("client harness (cmd/keymaster) did not complete (exit %d, %d/%d lines)" % (rc, len(kraw), len(kops)))
@@ -225,6 +227,12 @@ def run(ctx):
             out.append(tok)
         return " ".join(out)
     c.diff_streams(ctx, "cmd/keymaster key generation + installation vs KM.Client.offers / install model", mops, cmp_impl, model, canon=canon)
+    for mo, a, b in zip(mops, cmp_impl, model):
+        if mo.startswith("install ") and canon(a) != canon(b):
+            f = mo.split()
+            pending_violation(ctx, "install:%s:%s" % (f[1], f[2]),
+                              "three runs of insertSSHCertIntoAgentORWriteToFilesystem with the real %s SSH key (%s) left %s, expected %s" % (
+                                  f[1], f[2], canon(a), canon(b)), {"stream": "k", "ops": ["k install %s %s" % (f[1], f[2])], "impl": a, "model": b})
     # ------------------------------------------------------------------ 2. server acceptance
     sops, smeta = [], []
     for (pref, cert, mand, kn) in offers:
@@ -287,12 +295,16 @@ def run(ctx):
                                   " with an Ed25519 CA configured" if m[4] else "", v),
                               {"stream": "s", "ops": [o], "pref": m[1], "cert": m[2], "keyfile": m[6], "status": l, "judge": v})
     # ------------------------------------------------------------------ 3. agent upsert
-    aops = agent_ops(ctx.rng, 60 if q else 1500)
+    client_types = sorted(set("%s:%d" % (g["kind"], g["bits"]) for g in facts["c19"]["key_gen"]))
+    aops = agent_ops(ctx.rng, 60 if q else 1500, client_types)
+    cov["agent_key_types"] = client_types
     aimpl, rc = harness(ctx, "lib/client/sshagent", aops, tag="a")
     if rc != 0 or len(aimpl) != len(aops):
         ctx.broken.append("harness lib/client/sshagent TestVerifC19 did not complete (exit %d, %d/%d lines)" % (rc, len(aimpl), len(aops)))
         return c.finish(ctx)
-    model = c.run_driver(ctx, "model", aops)
+    # the model is indifferent to key types: it gets the ops without them
+    amops = [" ".join(o.split()[:5] if o.split()[1] == "add" else o.split()[:4]) for o in aops]
+    model = c.run_driver(ctx, "model", amops)
     c.diff_streams(ctx, "withAddedKeyUpsertCertIntoAgentConnection on an in-memory agent vs KM.Client.agentUpsert", aops, aimpl, model)
     jops, jmeta = [], []
     for i, (o, l) in enumerate(zip(aops, aimpl)):
@@ -307,7 +319,8 @@ def run(ctx):
         cov["agent_upserts"] += 1
         if v != "ok":
             start = max(j for j in range(i + 1) if aops[j] == "a reset")
-            pending_violation(ctx, "agent-upsert", "agent before=[%s] after=[%s]: %s" % (b, a, v),
+            pending_violation(ctx, "agent-upsert", "upsert of a %s certificate labelled %r: agent before=[%s] after=[%s]: %s" % (
+                              (o.split() + ["ed25519:256"])[4], c.unhexs(o.split()[2]), b, a, v),
                               {"stream": "a", "ops": aops[start:i + 1], "judge": v})
     # ------------------------------------------------------------------ 4. thorough: the real client against the real server
     if not q:
@@ -356,7 +369,12 @@ def run_e2e(ctx, cov, ca, prefs):
     for p in prefs:
         for mode in ("noagent", "agent"):
             kops.append("k setup %s %s %s" % (p, mode, d))
-    kraw, rc = run_client(ctx, kops, tag="e%d" % ca)
+    pid = None
+    try:
+        pid = int(open(os.path.join(d, "pid")).read())
+    except (OSError, ValueError):
+        pass
+    kraw, rc = run_client(ctx, kops, tag="e%d" % ca, netns_pid=pid)
     open(os.path.join(d, "stop"), "w").close()
     th.join()
     if rc != 0 or len(kraw) != len(kops):
